@@ -40,6 +40,8 @@ pub enum St {
     Pair { k: usize, i: usize, j: usize },
     /// decryption key recombined from shares (split #i, subset mask)
     Shares { k: usize, m: usize, split: usize, mask: u32, fault: Option<u8> },
+    /// large splittings (t, n) = BIG[tn] with a named subset: 0 first t, 1 last t, 2 all, 3 first t - 1, 4 all + a duplicate
+    SharesBig { k: usize, m: usize, tn: usize, named: u8 },
     /// proof with one deviation
     Proof { k: usize, m: usize, dev: Option<PDev> },
 }
@@ -63,6 +65,9 @@ pub struct M14<C: Suite> {
 }
 
 const NSUM: usize = 16;
+
+/// thresholds beyond fixed buffer sizes and at the one byte identifier limit
+const BIG: [(usize, usize); 4] = [(65, 70), (200, 255), (255, 255), (2, 255)];
 
 impl<C: Suite> M14<C> {
     pub fn new(_tier: Tier, seed: u64) -> Self {
@@ -119,6 +124,13 @@ impl<C: Suite> Model for M14<C> {
             for i in 0..NSUM {
                 for j in i + 1..NSUM {
                     v.push(St::Pair { k, i, j });
+                }
+            }
+            if k == 0 {
+                for tn in 0..BIG.len() {
+                    for named in 0..5u8 {
+                        v.push(St::SharesBig { k, m: 3, tn, named });
+                    }
                 }
             }
             for split in 0..self.splits.len() {
@@ -191,6 +203,9 @@ impl<C: Suite> Model for M14<C> {
         match st {
             St::Enc { k, m, transport } => {
                 let mut ct = self.enc(*k, *m);
+                if transport.is_none() {
+                    expect_ct_move(o, "C14", &format!("ElGamalCiphertext<{}>", g), &ct, &(ct + ct));
+                }
                 if let Some(c) = transport {
                     let r: Result<ElGamalCiphertext<C>, String> = match c {
                         Codec::Bytes => ElGamalCiphertext::<C>::try_from(Vec::<u8>::from(&ct).as_slice()).map_err(|e| e.to_string()),
@@ -331,6 +346,46 @@ impl<C: Suite> Model for M14<C> {
                     }
                 }
             }
+            St::SharesBig { k, m, tn, named } => {
+                let (t, n) = BIG[*tn];
+                let ct = self.enc(*k, *m);
+                let shares = self.sks[*k].split_with_rng(t, n, rand_chacha::ChaCha20Rng::from_seed(data32(self.seed, &format!("c14-big-split-{}", tn)))).unwrap();
+                let all: Vec<ElGamalDecryptionShare<C>> = shares.iter().map(|s| ElGamalDecryptionShare(<C as BlsSignatureCore>::public_key_share_with_generator(&s.0, ct.c1).unwrap())).collect();
+                let ds: Vec<ElGamalDecryptionShare<C>> = match named {
+                    0 => all[..t].to_vec(),
+                    1 => all[n - t..].to_vec(),
+                    2 => all.clone(),
+                    3 => all[..t - 1].to_vec(),
+                    _ => {
+                        let mut v = all.clone();
+                        v.push(all[0].clone());
+                        v
+                    }
+                };
+                let r = guard(|| ElGamalDecryptionKey::<C>::from_shares(&ds));
+                o.calls(2);
+                let want = self.ref_point(&[*m]);
+                let cls = ["first-t", "last-t", "all", "first-t-minus-1", "all-plus-duplicate"][*named as usize];
+                let key = format!("C14:decryption-key-from-shares-large:{}:t{}n{}:{}", g, t, n, cls);
+                match (named, r) {
+                    (_, Err(p)) => o.expect(&format!("{}:panic", key), false, "returns", &p),
+                    (4, Ok(r)) => {
+                        o.outcome(if r.is_err() { "shares-fault:err" } else { "shares-fault:ok" });
+                        o.expect(&key, r.is_err(), "Err", "Ok");
+                    }
+                    (3, Ok(r)) => {
+                        // one share fewer than the threshold: an error (t = 2) or a different point
+                        let is = matches!(&r, Ok(k) if pt(&k.decrypt(&ct)) == want);
+                        o.outcome(if is { "shares-unqualified:m*H" } else { "shares-unqualified:other" });
+                        o.expect(&key, !is, "a different point or an error", "the plaintext point");
+                    }
+                    (_, Ok(r)) => {
+                        let is = matches!(&r, Ok(k) if pt(&k.decrypt(&ct)) == want);
+                        o.outcome(if is { "shares-qualified:m*H" } else { "shares-qualified:wrong" });
+                        o.expect(&key, is, "m times the generator", if r.is_err() { "Err" } else { "differs" });
+                    }
+                }
+            }
             St::Proof { k, m, dev } => {
                 use PDev::*;
                 let mut p = self.proof(*k, *m);
@@ -425,6 +480,7 @@ fn depth_of<C: Suite>(_m: &M14<C>, s: &St) -> usize {
         St::Sum { n, via, .. } => n - 1 + (*via != 0) as usize,
         St::Pair { .. } => 0,
         St::Shares { mask, fault, .. } => mask.count_ones() as usize + fault.is_some() as usize,
+        St::SharesBig { .. } => 0,
         St::Proof { dev, .. } => dev.is_some() as usize,
     }
 }
